@@ -7,6 +7,7 @@ require (
 	github.com/cossacklabs/acra v0.0.0
 	github.com/cossacklabs/themis/gothemis v0.14.0
 	github.com/sirupsen/logrus v1.6.0
+	go.etcd.io/bbolt v1.3.6
 )
 
 require (
